@@ -28,9 +28,55 @@ type Part struct {
 	Sel   bool
 }
 
+// splitParts cuts a pattern at the dots outside double quotes; a part written "a.b" (quotes doubled inside) stands for
+// the text a.b — the documented way (CSV quoting with '.' as the separator) to address a name that contains a dot.
+func splitParts(p string) []string {
+	var out []string
+	for len(p) > 0 || out == nil {
+		if strings.HasPrefix(p, `"`) {
+			var b strings.Builder
+			i := 1
+			for i < len(p) {
+				if p[i] == '"' {
+					if i+1 < len(p) && p[i+1] == '"' {
+						b.WriteByte('"')
+						i += 2
+						continue
+					}
+					i++
+					break
+				}
+				b.WriteByte(p[i])
+				i++
+			}
+			out = append(out, b.String())
+			p = p[i:]
+			if strings.HasPrefix(p, ".") {
+				p = p[1:]
+				if p == "" {
+					out = append(out, "")
+				}
+				continue
+			}
+			break
+		}
+		i := strings.IndexByte(p, '.')
+		if i < 0 {
+			out = append(out, p)
+			break
+		}
+		out = append(out, p[:i])
+		p = p[i+1:]
+		if p == "" {
+			out = append(out, "")
+		}
+	}
+	return out
+}
+
 func parsePattern(p string) []Part {
 	var out []Part
-	for _, s := range strings.Split(p, ".") {
+	for _, s := range splitParts(p) {
 		pt := Part{Glob: s}
 		if i := strings.LastIndex(s, "[type="); i >= 0 && strings.HasSuffix(s, "]") {
 			pt = Part{Glob: s[:i], Types: strings.Split(s[i+6:len(s)-1], "|"), Sel: true}
@@ -508,12 +554,26 @@ func sqliteFixtures(r Rlm, i int) (Rlm, [][]string, [][]string) {
 	if i%4 == 0 && !hasT("legacy") {
 		s.Tbls = append(s.Tbls, Tbl{N: "legacy", Cols: []Col{{N: "id", T: "int"}, {N: "fx", T: "int", Null: true}}})
 	}
+	// names that only differ from a literal pattern where SQL LIKE would be lenient (`_`, `%`, letter case), and a name
+	// that contains a dot (addressed with a quoted pattern part)
+	for _, t := range []Tbl{
+		{N: "KxQt", Cols: []Col{{N: "id", T: "int"}, {N: "v", T: "txt", Null: true}}},
+		{N: "pzza", Cols: []Col{{N: "id", T: "int"}}},
+		{N: "au.lg", Cols: []Col{{N: "id", T: "int"}, {N: "d.c", T: "txt", Null: true}}, Idx: []Idx{{N: "au.ix", Cols: []string{"d.c"}}}},
+	} {
+		if !hasT(t.N) {
+			s.Tbls = append(s.Tbls, t)
+		}
+	}
+	t0 = &s.Tbls[0]
 	n := t0.N
+	extraSchema := [][]string{{"kx_t"}, {"kxqt"}, {"Kx_t", "p%a"}, {"p%a"}, {"K?Qt"}, {`"au.lg"`}, {`"au.lg".id`}, {`"au.lg"."d.c"`}, {`*."au.ix"`}, {"au"}, {"au.lg"}}
+	extraRealm := [][]string{{"main.kx_t"}, {"main.kxqt"}, {"main.p%a"}, {`main."au.lg"`}, {`main."au.lg".id`}, {`*."au.lg"."d.c"`}, {"main.au.lg"}}
 	schemaSets := [][]string{{"main." + n}, {"main.*"}, {"main.legacy"}, {n + ".fx"}, {"*.fx"}, {n + ".fx[type=column|index]"}, {n + ".f?", n + ".fx_i[type=fk]"},
 		{n + ".*"}, {"*.*"}, {"*.*[type=check]"}, {n + ".*[type=column|check]"}, {n + ".?*[type=check]"}}
 	realmSets := [][]string{{"main.main." + n}, {"main.main.*"}, {"main.main.legacy"}, {"main." + n + ".fx"}, {"main.*.fx"}, {"*." + n + ".fx[type=column|fk]"}, {"main.legacy"},
 		{"main." + n + ".*"}, {"*.*.*[type=check]"}, {"main." + n + ".*[type=check|index]"}}
-	return r, schemaSets, realmSets
+	return r, append(schemaSets, extraSchema...), append(realmSets, extraRealm...)
 }
 
 func genClass(rng *rand.Rand, ch byte) string {
